@@ -418,6 +418,99 @@ def suite_cli(ctx, res, n):
         check_bitmap_font(ctx, res, case, out)
 
 
+def maximum_color_bitmaps(job):
+    """a colour font through `maximum_color --bitmaps`: every glyph of a distinct flat colour, so the image a code point reaches is recognisable"""
+    import io as _io
+    from harness import cli, fontgen
+
+    seed, kind = job
+    import random
+    r = random.Random(seed)
+    d = common.scratch_dir("c14mc")
+    try:
+        cols = [("#E00000", (224, 0, 0)), ("#00B000", (0, 176, 0)), ("#0020E0", (0, 32, 224)), ("#E0C000", (224, 192, 0)), ("#00C0C0", (0, 192, 192))]
+        r.shuffle(cols)
+        # names that sort differently from the input order (B < u1F600 < u263A < uni25FD …), and one small shape shared by the first and last glyph only:
+        # gluing the SVG table onto the font reorders such glyphs
+        cps = [[0x1F600], [0x42], [0x263A], [0x25FD], [0x43]]
+        r.shuffle(cps)
+        n = r.choice([3, 4, 5])
+        cps, cols = cps[:n], cols[:n]
+        svgs = []
+        for i in range(n):
+            x = 8 + 6 * i
+            body = f'<path d="M{x},{x} L{92 - x},{x + 4} L{90 - x},{90 - x} L{x + 3},{88 - x} Z" fill="{cols[i][0]}"/>'
+            if kind == "shared" and i in (0, n - 1):
+                body += f'<path d="M{44 + i},{44} L{56 + i},{44} L{56 + i},{56} L{44 + i},{56} Z" fill="{cols[i][0]}"/>'
+            svgs.append(f'<svg xmlns="http://www.w3.org/2000/svg" viewBox="0 0 100 100">{body}</svg>')
+        case = {"id": f"mc-bitmaps:{kind}:{seed}", "seed": seed, "fmt": "glyf_colr_1", "svgs": svgs, "codepoints": cps,
+                "config": {"color_format": "glyf_colr_1", "upem": 1024, "ascender": 950, "descender": -250, "width": 1275, "reuse_tolerance": 0.1,
+                           "keep_glyph_names": True}}
+        out = fontgen.build(case)
+        if "err" in out:
+            return {"job": job, "skip": out["err"]}
+        (d / "in.ttf").write_bytes(out["bytes"])
+        rc, outp = cli.maximum_color(["--build_dir", d / "b", "--bitmaps", "--keep_glyph_names", d / "in.ttf"], d)
+        fp = d / "b" / "Font.ttf"
+        if rc != 0 or not fp.exists():
+            return {"job": job, "rc": rc, "tail": outp[-400:]}
+        return {"job": job, "rc": 0, "bytes": fp.read_bytes(), "cps": cps, "rgb": [c[1] for c in cols]}
+    finally:
+        import shutil
+        shutil.rmtree(d, ignore_errors=True)
+
+
+def suite_maximum_color(ctx, res, n):
+    """C14's image clause on the other producer of CBDT: after `maximum_color --bitmaps`, each code point reaches a glyph whose bitmap shows ITS drawing"""
+    import io as _io
+    from concurrent.futures import ThreadPoolExecutor
+    from fontTools import ttLib
+    from PIL import Image
+
+    jobs = [(ctx.rng.getrandbits(32), ["names", "shared"][i % 2]) for i in range(n)]
+    with ThreadPoolExecutor(max_workers=6) as ex:
+        results = list(ex.map(maximum_color_bitmaps, jobs))
+    for r in results:
+        cid = f"mc-bitmaps:{r['job'][1]}:{r['job'][0]}"
+        res.count(key=("mc", cid), nontrivial=True)
+        if "skip" in r:
+            res.stat("mc:skip:" + r["skip"])
+            continue
+        if r["rc"] != 0:
+            res.add_cex("maximum_color --bitmaps failed on a small COLRv1 font", {"job": list(r["job"]), "tail": r.get("tail")}, {"site": "c14-mc-build", "case": cid})
+            continue
+        res.stat("mc:ok")
+        font = ttLib.TTFont(_io.BytesIO(r["bytes"]), lazy=False)
+        if "CBDT" not in font:
+            res.add_cex("maximum_color --bitmaps added no CBDT", {"job": list(r["job"])}, {"site": "c14-mc-nocbdt", "case": cid})
+            continue
+        images = {}
+        for strike, data in zip(font["CBLC"].strikes, font["CBDT"].strikeData):
+            for st in strike.indexSubTables:
+                for nm in st.names:
+                    images[nm] = bytes(data[nm].imageData)
+        for cps, rgb in zip(r["cps"], r["rgb"]):
+            glyphs = shaper.shape(font, tuple(cps))
+            g = glyphs[0] if glyphs and len(glyphs) == 1 else None
+            if g is None or g not in images:
+                res.add_cex("after maximum_color --bitmaps a code point reaches no glyph with a bitmap", {"job": list(r["job"]), "cps": cps, "glyph": g,
+                            "with_bitmaps": sorted(images)}, {"site": "c14-mc-missing", "case": cid})
+                continue
+            im = Image.open(_io.BytesIO(images[g])).convert("RGBA")
+            px = [p for p in im.getdata() if p[3] > 200]
+            if not px:
+                res.add_cex("bitmap of a colour glyph is empty", {"job": list(r["job"]), "cps": cps, "glyph": g}, {"site": "c14-mc-empty", "case": cid})
+                continue
+            # the most common opaque colour of the image must be the colour of this code point's drawing (tolerance: quantisation by pngquant)
+            from collections import Counter
+            top = Counter((p[0] // 16, p[1] // 16, p[2] // 16) for p in px).most_common(1)[0][0]
+            want = tuple(v // 16 for v in rgb)
+            if any(abs(a - b) > 1 for a, b in zip(top, want)):
+                res.add_cex(f"after maximum_color --bitmaps U+{cps[0]:04X} reaches a glyph whose bitmap shows another glyph's drawing "
+                            f"(dominant colour ~{tuple(v * 16 for v in top)}, its drawing is {rgb})", {"job": list(r["job"]), "cps": cps, "glyph": g},
+                            {"site": "c14-mc-image", "case": cid})
+
+
 def suite_fonts(ctx, res, n):
     for i in range(n):
         fmt = ["cbdt", "cbdt", "sbix"][i % 3]
@@ -470,6 +563,7 @@ def run(ctx, res):
     suite_runs(ctx, res, ctx.budget(300, 5000))
     suite_fonts(ctx, res, ctx.budget(45, 900))
     suite_cli(ctx, res, ctx.budget(6, 24))
+    suite_maximum_color(ctx, res, ctx.budget(4, 16))
 
 
 def search(ctx, res, broken):
